@@ -561,7 +561,13 @@ int usleep(useconds_t useconds) {
 
 int nanosleep(const struct timespec* rqtp, struct timespec* rmtp) {
   if (!thread_locked && fiber_manager_get()) {
-    fiber_sleep(rqtp->tv_sec, rqtp->tv_nsec / 1000 + 1);
+    // fiber_sleep() takes 32 bit seconds: sleep in pieces if tv_sec is larger
+    time_t seconds = rqtp->tv_sec;
+    while (seconds > (time_t)UINT32_MAX) {
+      fiber_sleep(UINT32_MAX, 0);
+      seconds -= UINT32_MAX;
+    }
+    fiber_sleep(seconds, rqtp->tv_nsec / 1000 + 1);
     if (rmtp) {
       rmtp->tv_sec = 0;
       rmtp->tv_nsec = 0;
